@@ -151,6 +151,29 @@ pub fn generate(fs: &FileSet) -> GenOutcome {
     }
 }
 
+/// The directory entry point the CLI uses (`utils::read_input_file_and_xsd_files_at_path`), then
+/// read + write into memory; panics caught.
+pub fn generate_from_dir(start: &Path) -> GenOutcome {
+    let r = catch_unwind(AssertUnwindSafe(|| zeep_lib::utils::read_input_file_and_xsd_files_at_path(start)));
+    let ftr = match r {
+        Ok(Ok(f)) => f,
+        Ok(Err(e)) => return GenOutcome::ReadErr(format!("directory: {e}")),
+        Err(_) => return GenOutcome::Panic(take_panic()),
+    };
+    match read_prepared(&ftr) {
+        Err(ReadError::Err(e)) => GenOutcome::ReadErr(e),
+        Err(ReadError::Panic(p)) => GenOutcome::Panic(p),
+        Ok(doc) => {
+            let mut buf: Vec<u8> = Vec::new();
+            match doc(&mut buf) {
+                WriteOutcome::Ok => String::from_utf8(buf).map(GenOutcome::Ok).unwrap_or_else(|_| GenOutcome::WriteErr("output is not UTF-8".into())),
+                WriteOutcome::Err { display, .. } => GenOutcome::WriteErr(display),
+                WriteOutcome::Panic(p) => GenOutcome::Panic(p),
+            }
+        }
+    }
+}
+
 /// Mirror of `utils::read_input_file_and_xsd_files_at_path` that keeps the contents
 /// (start file + every sibling `*.xsd`), so cases are replayable from JSON.
 pub fn fileset_from_path(start: &Path) -> Option<FileSet> {
